@@ -1,7 +1,7 @@
 (* Properties/C05.v — A moving target stays on its source until the destination has scraped it.
    One-cycle form, with the README's literal 3 (the proof needs Gen.Consts.min_wait = 3, a constant
    regenerated from pkg/coordinator/rebalance.go on every run). *)
-From KV Require Import Base.Util Base.AMap Model.Coordinator Model.CoordCheck Model.Sidecar Model.World Proofs.CoordC01 Proofs.CoordCycle
+From KV Require Import Base.Util Base.AMap Model.Coordinator Model.CoordCheck Model.Sidecar Model.World Proofs.CoordBasics Proofs.CoordC01 Proofs.CoordCycle
   Proofs.WorldProofs Proofs.WorldNoGap Proofs.CoordHandover.
 Local Open Scope list_scope.
 Local Open Scope Z_scope.
